@@ -8,7 +8,10 @@ use std::process::Command;
 
 pub struct FuzzResult {
     pub executions: u64,
+    /// crash artifacts (the target aborted): re-executed in-process by the caller
     pub artifacts: Vec<PathBuf>,
+    /// inputs libFuzzer gave up on after its per-input time limit (never re-executed in-process)
+    pub timeouts: Vec<PathBuf>,
     pub corpus_files: usize,
 }
 
@@ -55,6 +58,9 @@ pub fn run(target: &str, runs_per_job: u64, jobs: usize, seed: u64, seeds: &[Vec
             .arg("-len_control=0")
             .arg(format!("-max_len={}", max_len))
             .arg("-timeout=60")
+            // leaks of the C library on its error paths are nobody's property here, and the first
+            // one would end the campaign of that process
+            .arg("-detect_leaks=0")
             .arg("-rss_limit_mb=4096")
             .arg("-print_final_stats=1")
             .arg(format!("-artifact_prefix={}/", arts.display()))
@@ -68,6 +74,7 @@ pub fn run(target: &str, runs_per_job: u64, jobs: usize, seed: u64, seeds: &[Vec
     }
     let mut executions = 0u64;
     let mut artifacts = vec![];
+    let mut timeouts = vec![];
     let mut corpus_files = 0;
     for (child, arts, corpus) in children {
         let out = child.wait_with_output().map_err(|e| e.to_string())?;
@@ -79,7 +86,14 @@ pub fn run(target: &str, runs_per_job: u64, jobs: usize, seed: u64, seeds: &[Vec
         }
         if let Ok(rd) = std::fs::read_dir(&arts) {
             for e in rd.flatten() {
-                artifacts.push(e.path());
+                let name = e.file_name().to_string_lossy().to_string();
+                if name.starts_with("timeout-") || name.starts_with("oom-") || name.starts_with("slow-unit-") {
+                    timeouts.push(e.path());
+                } else if name.starts_with("leak-") {
+                    // not a property of the library under test
+                } else {
+                    artifacts.push(e.path());
+                }
             }
         }
         corpus_files += std::fs::read_dir(&corpus).map(|r| r.count()).unwrap_or(0);
@@ -87,5 +101,5 @@ pub fn run(target: &str, runs_per_job: u64, jobs: usize, seed: u64, seeds: &[Vec
             note(&format!("libFuzzer {} ended with {:?} without an artifact: {}", target, out.status, err.lines().rev().take(5).collect::<Vec<_>>().join(" | ")));
         }
     }
-    Ok(FuzzResult { executions, artifacts, corpus_files })
+    Ok(FuzzResult { executions, artifacts, timeouts, corpus_files })
 }
